@@ -67,6 +67,9 @@ def watoms(e, heavy_row=False):
     return out
 
 
+OUT_OF_SCOPE = ("gL", "g4")  # not in the property's quantifier ("NC F2/FL (g1 ...), CC F2/FL/F3"); compared for information only
+
+
 def _job(kw):
     from .. import model
 
@@ -189,6 +192,12 @@ def run(rep, proj, tier):
                 rep.undecided("C08.support", "", label, f"{side} not foldable: {msg}")
             continue
         _, n, nt, oa, noa, om, nom, exc = o
+        if kw["obs"].split("_")[0] in OUT_OF_SCOPE:
+            # reported, never alarmed on: the property's quantifier names F2/FL/F3/g1 only
+            if noa or nom:
+                rep.info.setdefault("outside_quantifier", []).append(
+                    f"{label}: {noa} slot(s) only asymptotic, {nom} slot(s) only massive (e.g. {(om or oa)[0]}): the high-virtuality limit of this polarised kind is not implemented"[:300])
+            continue
         n_cmp += n
         n_nt += nt
         problems = []
